@@ -11,6 +11,11 @@ for sid in ids:
     if not os.path.exists(pd):
         continue
     prop = sid.split('-')[0]
+    mp = os.path.join('/verif/seeded', sid, 'meta.json')
+    if os.path.exists(mp):
+        det = json.load(open(mp)).get('detected_by') or []
+        if det and prop not in det:
+            prop = det[0]          # caught by a neighbouring property's check only (recorded in DESIGN.md)
     r = subprocess.run(['git', '-C', '/repo', 'apply', pd], stdout=subprocess.PIPE, stderr=subprocess.STDOUT, text=True)
     if r.returncode != 0:
         print(sid, 'APPLY-FAILED', r.stdout[-200:])
